@@ -181,9 +181,13 @@ def _case(item):
     stray = [f for f in sorted(os.listdir(d)) if f not in listing0 and f != os.path.basename(dst)]
     if stray:
         out.violate(PROP, "C16|stray-files", f"{tag}: stray files {stray}", rp, 1)
-    with zipfile.ZipFile(result_path) as z:
-        names1 = z.namelist()
-        members1 = {n: z.read(n) for n in names1}
+    try:
+        with zipfile.ZipFile(result_path) as z:
+            names1 = z.namelist()
+            members1 = {n: z.read(n) for n in names1}
+    except zipfile.BadZipFile as e:
+        out.violate(PROP, "C16|output-not-a-valid-zip", f"{tag}: the injected archive cannot be opened: {e}", rp, 1)
+        return out
     if names1 != names0:
         out.violate(PROP, "C16|member-names", f"{tag}: member list {names1} != original {names0}", rp, 1)
         return out
